@@ -121,3 +121,64 @@ def run_built_pyx(relpath, script, payload=None, root=None, timeout=600):
                         script, payload, timeout=timeout, cwd=tmp)
     finally:
         shutil.rmtree(tmp, ignore_errors=True)
+
+
+# ---------------------------------------------------------------------------
+# one in-place build of the working tree per check run, shared by all tasks
+# (process pool) through a lock file; removed by the engine when the run ends
+def _tree_digest(root):
+    import hashlib
+    h = hashlib.sha1()
+    for base, dirs, files in os.walk(os.path.join(root, 'pysph')):
+        dirs.sort()
+        for f in sorted(files):
+            if f.endswith(('.pyx', '.pxd', '.h', '.hpp', '.py', '.mako',
+                           '.pxi')):
+                p = os.path.join(base, f)
+                h.update(p[len(root):].encode())
+                with open(p, 'rb') as fh:
+                    h.update(fh.read())
+    return h.hexdigest()[:16]
+
+
+def shared_build(root=None, timeout=3000):
+    """-> (tree or None, message).  The build lives in
+    /tmp/pyvc_build_<run>_<digest>/tree (outside /repo and /verif)."""
+    import fcntl
+    root = root or REPO_ROOT
+    run = os.environ.get('PYVC_RUN_ID', str(os.getpid()))
+    top = '/tmp/pyvc_build_%s_%s' % (run, _tree_digest(root))
+    os.makedirs(top, exist_ok=True)
+    tree = os.path.join(top, 'tree')
+    with open(os.path.join(top, 'lock'), 'w') as lk:
+        fcntl.flock(lk, fcntl.LOCK_EX)
+        try:
+            done = os.path.join(top, 'done')
+            if os.path.exists(done):
+                with open(done) as f:
+                    msg = f.read()
+                return (tree if msg == 'ok' else None), msg
+            subprocess.run(['rsync', '-a', '--exclude', '.git', '--exclude',
+                            'build', '--exclude', 'docs', root + '/',
+                            tree + '/'], check=True)
+            env = dict(os.environ)
+            env.pop('PYTHONPATH', None)
+            p = subprocess.run(['/venv/bin/python', 'setup.py', 'build_ext',
+                                '--inplace', '-j', '12'], cwd=tree,
+                               capture_output=True, text=True, env=env,
+                               timeout=timeout)
+            msg = 'ok' if p.returncode == 0 else 'build failed: %s' % (
+                p.stdout + p.stderr)[-400:]
+            with open(done, 'w') as f:
+                f.write(msg)
+            return (tree if msg == 'ok' else None), msg
+        finally:
+            fcntl.flock(lk, fcntl.LOCK_UN)
+
+
+def cleanup_builds():
+    import glob
+    import shutil
+    run = os.environ.get('PYVC_RUN_ID', str(os.getpid()))
+    for d in glob.glob('/tmp/pyvc_build_%s_*' % run):
+        shutil.rmtree(d, ignore_errors=True)
